@@ -134,7 +134,13 @@ struct Env {
     /// one Arc per infix handler id: a user who registers the same closure twice (another name, or the
     /// same name with another precedence) passes clones of ONE Arc
     infix_arcs: StdMutex<std::collections::HashMap<usize, InfixArc>>,
+    /// the application keeps its handler Arcs: a replaced handler is still alive elsewhere
+    fn_arcs: StdMutex<std::collections::HashMap<usize, FnArc>>,
+    unary_arcs: StdMutex<std::collections::HashMap<usize, UnaryArc>>,
 }
+
+type FnArc = Arc<dyn Fn(Vec<Value>) -> expression_engine::Result<Value> + Send + Sync>;
+type UnaryArc = Arc<dyn Fn(Value) -> expression_engine::Result<Value> + Send + Sync>;
 
 type InfixArc = Arc<dyn Fn(Value, Value) -> expression_engine::Result<Value> + Send + Sync>;
 
@@ -266,9 +272,14 @@ impl Env {
         }
     }
 
-    fn fn_handler(self: &Arc<Env>, hid: usize) -> Arc<dyn Fn(Vec<Value>) -> expression_engine::Result<Value> + Send + Sync> {
+    fn fn_handler(self: &Arc<Env>, hid: usize) -> FnArc {
         let env = self.clone();
-        Arc::new(move |args| env.invoke(hid, args))
+        self.fn_arcs.lock().unwrap().entry(hid).or_insert_with(|| Arc::new(move |args| env.invoke(hid, args))).clone()
+    }
+
+    fn unary_handler(self: &Arc<Env>, hid: usize) -> UnaryArc {
+        let env = self.clone();
+        self.unary_arcs.lock().unwrap().entry(hid).or_insert_with(|| Arc::new(move |a| env.invoke(hid, vec![a]))).clone()
     }
 
     fn invoke(self: &Arc<Env>, hid: usize, args: Vec<Value>) -> expression_engine::Result<Value> {
@@ -351,13 +362,11 @@ impl Env {
                 Res::Unit
             }
             Op::RegPre { name, h } => {
-                let (env, hid) = (self.clone(), *h);
-                register_prefix_op(name, Arc::new(move |a| env.invoke(hid, vec![a])));
+                register_prefix_op(name, self.unary_handler(*h));
                 Res::Unit
             }
             Op::RegPost { name, h } => {
-                let (env, hid) = (self.clone(), *h);
-                register_postfix_op(name, Arc::new(move |a| env.invoke(hid, vec![a])));
+                register_postfix_op(name, self.unary_handler(*h));
                 Res::Unit
             }
             Op::RegIn { name, prec, setter, right, h } => {
@@ -592,6 +601,8 @@ pub fn run_case(case: &Arc<Case>, spec: &SchedSpec) -> RunOutput {
         slots: StdMutex::new(vec![]),
         shared: StdMutex::new(SharedAsts { asts: vec![], texts: vec![] }),
         infix_arcs: StdMutex::new(std::collections::HashMap::new()),
+        fn_arcs: StdMutex::new(std::collections::HashMap::new()),
+        unary_arcs: StdMutex::new(std::collections::HashMap::new()),
     });
     let rec = Arc::new(StdMutex::new(SchedRecord::default()));
     let mut cfg = shuttle::Config::new();
@@ -633,6 +644,12 @@ pub fn run_case(case: &Arc<Case>, spec: &SchedSpec) -> RunOutput {
     if let Ok(mut s) = env.infix_arcs.lock() {
         s.clear();
     }
+    if let Ok(mut s) = env.fn_arcs.lock() {
+        s.clear();
+    }
+    if let Ok(mut s) = env.unary_arcs.lock() {
+        s.clear();
+    }
     RunOutput { log, rec, verdict }
 }
 
@@ -648,6 +665,8 @@ pub fn run_case_std(case: &Arc<Case>) -> Vec<Ev> {
         slots: StdMutex::new(vec![]),
         shared: StdMutex::new(SharedAsts { asts: vec![], texts: vec![] }),
         infix_arcs: StdMutex::new(std::collections::HashMap::new()),
+        fn_arcs: StdMutex::new(std::collections::HashMap::new()),
+        unary_arcs: StdMutex::new(std::collections::HashMap::new()),
     });
     let e2 = env.clone();
     let _ = catch_unwind(AssertUnwindSafe(move || e2.main_body()));
